@@ -205,7 +205,7 @@ def pytorch_stft_frame_computer(
     spect = torch.fft.rfft(sig, dft_size_, 1, "backward")
     del sig
     half_len = spect.size(1)
-    mod = half_len % 2
+    mod = dft_size_ % 2
     for si, filt in zip(offsets, filters):
         val, consumed, conj, filt_len = zero, 0, False, len(filt)
         while consumed < filt_len:
